@@ -2,6 +2,7 @@ package contentstream
 
 import (
 	"bytes"
+	"errors"
 	"fmt"
 	"strconv"
 
@@ -283,6 +284,11 @@ func (p *Parser) parseNumber() (core.Object, error) {
 
 	val, err := strconv.ParseInt(numStr, 10, 64)
 	if err != nil {
+		// An integer beyond the 64-bit range is read as a real number, as the
+		// document-level parser does (ISO 32000-1 7.3.3).
+		if f, ferr := strconv.ParseFloat(numStr, 64); ferr == nil && errors.Is(err, strconv.ErrRange) {
+			return core.Real(f), nil
+		}
 		return nil, fmt.Errorf("invalid integer %q: %w", numStr, err)
 	}
 	return core.Int(val), nil
